@@ -13,16 +13,21 @@ func init() {
 
 func rulesC13(c *Ctx) {
 	sk := c.Fn(pM, "", "startKeepalive")
-	// role anchor: the go literal that creates a ticker and pings
+	// role anchor: the go literal that pings the session
 	ticker := c.Std("time", "", "NewTicker")
 	var loop *Func
 	var goStmt *ast.GoStmt
+	sessionP := sk.ParamOfNamed(pM, "keepaliveSession")
 	for _, gs := range sk.goStmts() {
-		if l := sk.LitArgOfGo(gs); l != nil && len(l.CallsIn(l.Body, ticker, false)) == 1 {
-			loop, goStmt = l, gs
+		if l := sk.LitArgOfGo(gs); l != nil {
+			for _, call := range l.AllCalls(l.Body, false) {
+				if nm, on := l.SelectorOn(call.Fun, sessionP); on && nm == "Ping" {
+					loop, goStmt = l, gs
+				}
+			}
 		}
 	}
-	c.Need(loop != nil, "startKeepalive: goroutine literal with a ticker")
+	c.Need(loop != nil, "startKeepalive: goroutine literal that pings the session")
 	c.touch(loop)
 	g := loop.Graph()
 	errIs := c.Std("errors", "", "Is")
@@ -174,6 +179,35 @@ func rulesC13(c *Ctx) {
 	})
 
 	c.Rule("R-C13-2", "timing structure: fixed tick period, per-ping timeout a constant fraction (≤ 1) of the interval and always released, loop exits on cancellation", func() {
+		// the period is kept by one time.Ticker that lives across iterations (a timer re-created per iteration, such as
+		// time.After in the select, restarts only after each ping returned: N timed-out pings then take N·1.5 intervals)
+		tcalls := loop.CallsIn(loop.Body, ticker, false)
+		okTick := false
+		if len(tcalls) == 1 {
+			tv := loop.VarFromCall(ticker, 0)
+			inspectNoLit(loop.Body, func(n ast.Node) {
+				fs, isFor := n.(*ast.ForStmt)
+				if !isFor || !g.Dominates(g.VertexOf(tcalls[0]), g.VertexOf(fs.Body.List[0])) || encloses(fs, tcalls[0]) {
+					return
+				}
+				ast.Inspect(fs.Body, func(m ast.Node) bool {
+					if cc, ok := m.(*ast.CommClause); ok && cc.Comm != nil {
+						if ch, isSend := commChan(cc.Comm); ch != nil && !isSend {
+							if nm, on := loop.SelectorOn(ch, tv); on && nm == "C" && tv != nil {
+								okTick = true
+							}
+						}
+					}
+					return true
+				})
+			})
+		}
+		c.Check(okTick, "ticker:one-ticker-across-iterations", loop, nil, "the loop waits on the channel of a single time.NewTicker created before the loop (%d NewTicker calls in the goroutine)", len(tcalls))
+		for _, fn := range []string{"After", "NewTimer", "AfterFunc", "Sleep"} {
+			if n := len(loop.CallsIn(loop.Body, c.Std("time", "", fn), true)); n > 0 {
+				c.Fail("ticker:no-per-iteration-timer:"+fn, loop, nil, "time.%s is used in the keep-alive goroutine: waits that start after a ping returned stretch the period by the ping's duration", fn)
+			}
+		}
 		// ticker period is the interval parameter; never Reset; Stop deferred
 		for _, call := range loop.CallsIn(loop.Body, ticker, false) {
 			c.Check(loop.ObjOf(call.Args[0]) == types.Object(interval), "ticker:period-is-interval", loop, call, "the ticker period is the configured interval")
@@ -301,6 +335,58 @@ func rulesC13(c *Ctx) {
 		}
 	})
 
+	c.Rule("R-C13-5", "the streamable client marks a message that did not reach the server as rejected (wrapping jsonrpc2.ErrRejected with %w), so a failed ping POST is a miss and not a broken writer: the connection survives to the next ping", func() {
+		wr := c.Fn(pM, "streamableClientConn", "Write")
+		rej := c.Obj(pJ, "ErrRejected")
+		sites := []struct {
+			key    string
+			callee *types.Func
+		}{
+			{"http.Client.Do", c.Std("net/http", "Client", "Do")},
+			{"setMCPHeaders", c.FnObj(pM, "streamableClientConn", "setMCPHeaders")},
+			{"OAuthHandler.Authorize", c.P.StdFunc(modPath+"/auth", "OAuthHandler", "Authorize")},
+		}
+		for _, s := range sites {
+			c.Need(s.callee != nil, "callee "+s.key)
+			n := 0
+			for _, f := range append([]*Func{wr}, wr.AllLits()...) {
+				for _, call := range f.CallsIn(f.Body, s.callee, false) {
+					n++
+					ok, why := f.failureWraps(call, rej)
+					c.Check(ok, "Write:"+s.key+"-failure-is-rejected#"+itoa(n), f, call, "every return behind a failure of %s wraps ErrRejected with %%w (errors.Is must see it; %%v or a plain error makes jsonrpc2 record a write error and the session dies after one miss) %s", s.key, why)
+				}
+			}
+			c.Pin("calls of "+s.key+" in streamableClientConn.Write", n, 1)
+		}
+		// transient HTTP statuses likewise
+		cr := c.Fn(pM, "streamableClientConn", "checkResponse")
+		cg := cr.Graph()
+		tr := c.FnObj(pM, "", "isTransientHTTPStatus")
+		nT := 0
+		for _, cv := range cg.condVertices() {
+			ce, isCall := ast.Unparen(cg.Node(cv - 1).(ast.Expr)).(*ast.CallExpr)
+			if !isCall || !cr.IsCallTo(ce, tr) {
+				continue
+			}
+			nT++
+			t, _ := cg.BranchTargets(cv - 1)
+			seen, _ := cg.reach([]int{t}, nil, nil)
+			seen[t] = true
+			okAll := true
+			for _, x := range cg.Exits {
+				if seen[x] {
+					r, isR := cg.Node(x).(*ast.ReturnStmt)
+					if !isR || len(r.Results) != 1 || !cr.WrapsObj(r.Results[0], rej) {
+						okAll = false
+					}
+				}
+			}
+			c.Check(okAll, "checkResponse:transient-status-is-rejected", cr, ce, "502/503/504/429/500 answers are returned wrapping ErrRejected")
+		}
+		c.Pin("isTransientHTTPStatus tests in checkResponse", nT, 1)
+		// and jsonrpc2 honours the mark (R-C13-4 checks the guard itself)
+	})
+
 	c.Rule("R-C13-4", "a ping whose write times out does not poison the connection (shared with R-C04-6): later pings still reach the peer, so a live peer is not closed after one miss", func() { ruleWriteErrGuard(c) })
 }
 
@@ -353,6 +439,18 @@ func rulesC14(c *Ctx) {
 			gs = append(gs, k)
 		}
 		c.Check(ok && len(got) > 0, key, v, nil, "%s: admitting return reachable=%v, reachable codes %v (expected only %v)", why, seen[av], gs, want)
+	}
+	// the converse direction: under a valuation in which every check passes, admission is reachable and no rejection is
+	admits := func(key string, leaf func(ast.Expr) tri, why string) {
+		seen := g.ReachUnder(leaf, nil)
+		c.paths++
+		var rej []int64
+		for _, r := range v.Returns() {
+			if seen[g.VertexOf(r)] && r != admit {
+				rej = append(rej, codeOf(r))
+			}
+		}
+		c.Check(seen[av] && len(rej) == 0, key, v, admit, "%s: admitting return reachable=%v, rejections still reachable %v (expected none)", why, seen[av], rej)
 	}
 	// tokenInfo / err variables of the verifier call
 	var tokVar, errVar types.Object
@@ -413,6 +511,9 @@ func rulesC14(c *Ctx) {
 		okBase := append(hdrOK, errM(triTrue), tokM(triFalse), callIs("Contains", "", triTrue))
 		scenario("verify:missing-expiration-not-allowed", anyOf(append(okBase, callIs("IsZero", "", triTrue), fieldIs("AllowMissingExpiration", triFalse))...)(v), []int64{401}, "no expiration and AllowMissingExpiration is false")
 		scenario("verify:expired-beyond-skew", anyOf(append(okBase, callIs("IsZero", "", triFalse), callIs("Before", "", triTrue))...)(v), []int64{401}, "expiration + skew is before now (for every value of AllowMissingExpiration)")
+		// if-direction: when everything checks out the request is admitted, whatever the options pointer is
+		admits("verify:admits-valid-unexpired", anyOf(append(okBase, callIs("IsZero", "", triFalse), callIs("Before", "", triFalse))...)(v), "well-formed Bearer credential, verifier accepts, scopes contained, expiration + skew not before now")
+		admits("verify:admits-missing-expiration-when-allowed", anyOf(append(okBase, callIs("IsZero", "", triTrue), fieldIs("AllowMissingExpiration", triTrue))...)(v), "as above without an expiration, AllowMissingExpiration set")
 		// the expiry comparison has the documented normal form
 		now := c.Std("time", "", "Now")
 		okForm := false
